@@ -4,6 +4,7 @@ CONSTANTS
   Vals <- ValsMC
   Offsets <- OffsetsMC
   MaxRows = 4
+  InitTables <- InitMC
   Depth = 14
 INIT GenInit
 NEXT GenNext
